@@ -287,6 +287,9 @@ def run_contract(repo, c: FnContract) -> FnResult:
                     eng.ob(f"noraise.{exc}", e, z3.BoolVal(False), node, tag="explicit")
             else:
                 raise Unsupported(f"outcome {out!r} escapes the function")
+        if getattr(c, "expect_no_return", False) and n_ret == 0:
+            # `no normal return` holds syntactically on every explored path: recorded as one (trivially discharged) obligation
+            eng.ob("post", st, z3.BoolVal(True), node, tag="no_normal_return_on_any_path")
     except Unsupported as e:
         return FnResult(c, eng.obligations, canaries, unsupported=str(e), source_line=node.lineno)
     except (AttributeError, TypeError, KeyError, AssertionError, ValueError, IndexError) as e:  # engine limits, never a verdict
